@@ -39,4 +39,6 @@ TraceAccepted ==
     LET d == TLCGet("stats").diameter IN
     IF d - 1 = Len(Rec) THEN TRUE ELSE Print(<<"TRACE_REJECTED", d, Rec[d]>>, FALSE)
 V_C17 == viol = {}
+\* C10: a record handed out by the info-carrying exfiltrators is a faithful copy of one real delivery
+V_C10 == viol = {}
 =============================================================================
